@@ -468,6 +468,15 @@ pub fn run_fault_case<H: HK>(case: &FaultCase, fp: &FaultParams, scratch: &Scrat
                 post: &post,
                 salt: hist.salt,
             };
+            if std::env::var_os("VERIF_DEBUG").is_some() {
+                eprintln!("CHECKPOINT dir_durable {:?} dir_pending {:?}", cp.dir_durable.keys().collect::<Vec<_>>(), cp.dir_pending.iter().map(|d| (d.create, d.name.clone(), d.completed)).collect::<Vec<_>>());
+                for (i, ev) in tr.iter().enumerate() {
+                    match ev {
+                        Ev::Begin { id, file, kind } => eprintln!("  {i}: begin #{id} {} {}", kind.name(), file),
+                        Ev::End { id, ok } => eprintln!("  {i}: end #{id} ok={ok}"),
+                    }
+                }
+            }
             let en = enumerate(&cp, &tr, fp.mode, case.choice_seed, returned_ok, fp.randoms, &mut info);
             let quiescent: BTreeSet<u64> = [
                 iosim::image_hash(&keep_all_image(&cp)),
